@@ -10,6 +10,8 @@ HDR.STRIP    read_header_line matches each pattern with re.match in order, takes
              and removes only leading/trailing dots from a unit that ends in '.'
 """
 import ast
+
+from sa.astutil import ordn
 import itertools
 
 from sa import AnalysisError
@@ -311,7 +313,7 @@ def rule_select(ctx):
     # the time-aware pattern is appended before the regular one
     appends = [s for s in walk_shallow(fi.node) if isinstance(s, ast.Expr) and isinstance(s.value, ast.Call)
                and isinstance(s.value.func, ast.Attribute) and s.value.func.attr == "append"]
-    ctx.check(len(appends) == 2 and appends[0].lineno < appends[1].lineno, "HDR.SELECT", CFG_FN + "#order", fi, fi.node,
+    ctx.check(len(appends) == 2 and ordn(appends[0]) < ordn(appends[1]), "HDR.SELECT", CFG_FN + "#order", fi, fi.node,
               "two appends: the ~Parameter time-aware pattern first, the regular pattern second",
               "expected two pattern appends (time-aware first), found %d" % len(appends))
     ctx.floor("HDR.SELECT", 2)
@@ -374,8 +376,18 @@ def rule_strip(ctx):
     for l in loops:
         if "items()" in ast.unparse(l.iter) or "groupdict" in ast.unparse(l.iter):
             gl = l
+    delegated = None
     if gl is None:
-        problems.append("no loop over the matched groups")
+        # the groups are handed to something else (a table of per-field functions, a helper): not the recognised loop
+        handed = [c for c in ast.walk(fi.node) if isinstance(c, ast.Call) and "groupdict" in ast.unparse(c)
+                  and not (isinstance(c.func, ast.Attribute) and c.func.attr == "groupdict")]
+        comps = [c for c in ast.walk(fi.node) if isinstance(c, (ast.DictComp, ast.ListComp, ast.GeneratorExp)) and any(
+            "items()" in ast.unparse(g.iter) or "groupdict" in ast.unparse(g.iter) for g in c.generators)]
+        if handed or comps:
+            delegated = "the matched groups are post-processed by `%s`, not by a loop over the groups in read_header_line" % unparse(
+                (comps or handed)[0])[:90]
+        else:
+            problems.append("no loop over the matched groups")
     else:
         kv = gl.target
         valname = kv.elts[1].id if isinstance(kv, ast.Tuple) and len(kv.elts) == 2 and isinstance(kv.elts[1], ast.Name) else None
@@ -421,11 +433,15 @@ def rule_strip(ctx):
     # nothing rewrites a field after the groups were taken over
     if gl is not None:
         for s_ in walk_shallow(fi.node):
-            if isinstance(s_, (ast.Assign, ast.AugAssign)) and not in_block(s_, [gl]) and s_.lineno > gl.lineno:
+            if isinstance(s_, (ast.Assign, ast.AugAssign)) and not in_block(s_, [gl]) and ordn(s_) > ordn(gl):
                 for t in (s_.targets if isinstance(s_, ast.Assign) else [s_.target]):
                     if isinstance(t, ast.Subscript) and isinstance(t.slice, ast.Constant) and t.slice.value in ("name", "unit", "value", "descr"):
                         problems.append("the field %r is rewritten after matching (`%s`): the text of a header line is no longer handed on "
                                         "as written" % (t.slice.value, unparse(s_)[:70]))
+    if delegated and not problems:
+        ctx.undecided("HDR.STRIP", site, fi, fi.node, delegated)
+        ctx.floor("HDR.STRIP", 0)
+        return
     ctx.check(not problems, "HDR.STRIP", site, fi, fi.node,
               "patterns tried in order with re.match, first hit wins; every group is strip()ped; a unit ending in '.' "
               "loses only leading/trailing dots", "; ".join(dict.fromkeys(problems)))
